@@ -168,6 +168,22 @@ def main(chk):
                 chk.machinery("Apalache did not discharge the %s obligation of ContainersInd.IndInv:\n%s" % (name, pr.stdout[-800:]))
         chk.part("unbounded_core", apalache_inductive_invariant=done)
         shutil.rmtree(outdir, ignore_errors=True)
+    # the same obligations for every natural NParts and every set of iterators: the TLAPS proof of ContainersProof.tla
+    tlapm = shutil.which("tlapm")
+    if tlapm is None:
+        chk.machinery("tlapm is not on PATH")
+    else:
+        pdir = tlc.workdir("c20/tlaps")
+        for m in ("ContainersInd.tla", "ContainersProof.tla"):
+            shutil.copy(os.path.join(tlc.SPECS, m), pdir)
+        pr = subprocess.run([tlapm, "--threads", "4", "--cleanfp", "ContainersProof.tla"], capture_output=True, text=True, timeout=1500, cwd=pdir)
+        out = pr.stdout + pr.stderr
+        m = re.search(r"All (\d+) obligations? proved", out)
+        if pr.returncode != 0 or not m:
+            chk.machinery("tlapm did not prove ContainersProof.tla:\n%s" % out[-1200:])
+        else:
+            chk.part("unbounded_core", tlaps_obligations_proved=int(m.group(1)), tlaps_theorem="Spec => []Safety for NParts in Nat and any Iters")
+        shutil.rmtree(pdir, ignore_errors=True)
     if mc.violated:
         chk.machinery("Containers specification violates its own property: %s" % mc.violated)
         return
